@@ -51,6 +51,13 @@ JOBS = {
     "c1": dict(root="Conv", samples=conv_sample("c"), fw="attrs", layout="flat", kw={"post_init_converters": True}, fail_at=0),
     "c2": dict(root="Plain", samples=conv_sample("d"), fw="base", layout="flat", kw={"post_init_converters": True}, fail_at=0),
     "c3": dict(root="Dc", samples=conv_sample("e"), fw="dataclasses", layout="nested", kw={"post_init_converters": True, "meta": True}, fail_at=0),
+    # model names that only SOME frameworks have to keep clear of (Config, Field, BaseModel, ... are names of pydantic): the registry is
+    # rendered for pydantic, then the very same registry for a framework that knows none of them -- nothing a render leaves behind in the
+    # shared model objects may show in the next one
+    "n1": dict(root="Service", samples=[{"name": "s", "config": {"debug": True, "retries": 3}, "fields": [{"title": "a", "width": 1}],
+                                        "base_model": {"json": 1, "copy": 2}}], fw="pydantic", layout="nested", kw={}, fail_at=0),
+    "rn1": dict(root="Service", samples=[{"name": "s", "config": {"debug": True, "retries": 3}, "fields": [{"title": "a", "width": 1}],
+                                         "base_model": {"json": 1, "copy": 2}}], fw="dataclasses", layout="flat", kw={}, fail_at=0, reuse="n1"),
     # two whole pipelines of different shape whose models carry the SAME registry indexes (1A, 1B, 1C): observed step by step
     # (build steps are yield points too), so that anything a pipeline memoises process-wide under such an index is found out.
     # m1 merges `first` and `second`; m2 merges nothing.
@@ -59,7 +66,7 @@ JOBS = {
     "m2": dict(root="My", samples=[{"left": {"p": 1, "q": "s"}, "right": {"x": 1.5, "y": [1]}}], fw="base", layout="flat", kw={},
                fail_at=0, build=True),
 }
-JOB_NAMES = ("j1", "j2", "j3", "f1", "f2", "r1", "r2", "c1", "c2", "c3", "m1", "m2")
+JOB_NAMES = ("j1", "j2", "j3", "f1", "f2", "r1", "r2", "c1", "c2", "c3", "m1", "m2", "n1", "rn1")
 
 
 def raising_class(base, fail_at):
